@@ -162,6 +162,7 @@ def run(ctx):
     pt_variants(ctx, variants)
     corr_variants(ctx, batch, variants, 1 if ctx.quick else 2)
     sem_variants(ctx, batch, variants)
+    c03.scope_checks(ctx, batch, cases, 'dec')
     batch.run()
     ctx.extra['open_theorems'] = OPEN
     if not ok:
